@@ -592,6 +592,14 @@ class Symbolic(
         parent = path.parent.get(self) if path else None
         if isinstance(parent, Symbolic):
           parent._sync_children()  # pylint: disable=protected-access
+          # Content-based caches of the touched node and its ancestors may
+          # be stale, as no change event is delivered for a failed batch.
+          node = parent
+          while node is not None:
+            node._set_raw_attr('_sym_puresymbolic', None)       # pylint: disable=protected-access
+            node._set_raw_attr('_sym_missing_values', None)     # pylint: disable=protected-access
+            node._set_raw_attr('_sym_nondefault_values', None)  # pylint: disable=protected-access
+            node = node.sym_parent
       raise
     if skip_notification is None:
       skip_notification = not flags.is_change_notification_enabled()
